@@ -156,7 +156,7 @@ for nm, fn, ctx, first in (("semi_text_arm_nl_k2", "dispatch_macro_semi_term_tex
                            ("stat_opts_arm_percent_k2", "dispatch_macro_stat_opts_text_expr", "stat_opts", "%")):
     LXH(f"lx_{nm}", COMMON + ["C06", "C13"], "thorough", f"first char {first!r} (constant) + <= 1 code point", [f"Lexer::{fn}"], 2400, stubs=ARM, fixed=first, contexts=[ctx], mem=16)
 LXH("lx_eval_string_k3", COMMON + ["C06", "C08", "C13"], "thorough", "<= 3 code points; flags, pnl symbolic", ["Lexer::lex_macro_string_in_macro_eval_context"], 3000, stubs=XID + NUMS + ["macro::is_macro_stat -> arbitrary bool (phf lookup)"], contexts=["eval"], mem=20)
-LXH("lx_eval_string_k2", COMMON + ["C06", "C08", "C13"], "quick", "<= 2 code points; flags, pnl symbolic", ["Lexer::lex_macro_string_in_macro_eval_context"], 1500, stubs=XID + NUMS + ["macro::is_macro_stat -> arbitrary bool (phf lookup)"], contexts=["eval"], mem=16)
+LXH("lx_eval_string_k2", COMMON + ["C06", "C08", "C13"], "thorough", "<= 2 code points; flags, pnl symbolic", ["Lexer::lex_macro_string_in_macro_eval_context"], 1500, stubs=XID + NUMS + ["macro::is_macro_stat -> arbitrary bool (phf lookup)"], contexts=["eval"], mem=16)
 DEAD = ["sub-lexers of other first-character arms -> unreachable"]
 LXH("lx_default_star", COMMON + ["C06", "C11"], "quick", "'*' + <= 2 code points; macro nesting 0/1, pending flag symbolic", ["Lexer::dispatch_mode_default", "Lexer::lex_symbols", "Lexer::lex_predicted_comment", "Lexer::rollback"], 900, stubs=DEAD + XID, fixed="*", contexts=["default", "in_macro"])
 LXH("lx_default_symbol", COMMON + ["C06", "C11"], "quick", "<= 2 code points, first of the symbol/unknown class", ["Lexer::dispatch_mode_default", "Lexer::lex_symbols"], 900, stubs=DEAD + XID, contexts=["default"])
@@ -198,10 +198,7 @@ HARNESSES[-1]["decoder"] = None
 LXH("lx_double_quoted_literal_direct", ["C01", "C02", "C03", "C04", "C06", "C07", "C10", "C11", "C16"], "quick", "closing quote + <= 2 code points of suffix; payload handed over symbolic", ["Lexer::lex_double_quoted_literal", "Lexer::resolve_string_literal_ending", "Lexer::update_last_token"], 300, stubs=HEXS, fixed='"', contexts=["quote"], mem=8)
 LXH("lx_str_expr_start", ["C01", "C02", "C03", "C04", "C06", "C10"], "quick", "'\"' + <= 1 code point", ["Lexer::lex_string_expression_start"], 300, fixed='"', contexts=["default"], mem=8)
 DLF = ["Lexer::lex_datalines", "Cursor::advance_by"]
-LXH("lx_datalines_direct_k2", COMMON + ["C06", "C10", "C11", "C15"], "quick", "'cArds' consumed + <= 2 code points; look-behind none / ';' / other, optional hidden token", DLF, 1500, cfgs=("nodebug",), fixed="cArds", contexts=["default"], mem=16)
-LXH("lx_datalines_direct_k3", COMMON + ["C06", "C10", "C11", "C15"], "thorough", "'cArds' consumed + <= 3 code points; look-behind none / ';' / other, optional hidden token", DLF, 5400, cfgs=("nodebug",), fixed="cArds", contexts=["default"], mem=16)
-LXH("lx_datalines_direct_k4", COMMON + ["C06", "C10", "C11"], "thorough", "'lines' consumed + <= 4 code points", DLF, 5400, cfgs=("nodebug",), fixed="lines", contexts=["default"], mem=20)
-LXH("lx_datalines4_direct_k6", COMMON + ["C06", "C10", "C11"], "thorough", "'cards4' consumed + <= 6 code points (';;;;' terminator)", DLF, 7200, cfgs=("nodebug",), fixed="cards4", contexts=["default"], mem=24)
+LXH("lx_datalines_direct_k2", COMMON + ["C06", "C10", "C11", "C15"], "thorough", "'cArds' consumed + <= 2 code points; look-behind none / ';' / other, optional hidden token", DLF, 7200, cfgs=("nodebug",), fixed="cArds", contexts=["default"], mem=28)
 TDC = ["every sub-lexer of the dispatcher (quotes, comments, blanks, macro variable / call / comment, the mode's text scanner) -> recording stand-ins; lex_macro_call's outcome chosen by the harness; the scanners have their own harnesses"]
 for nm, fn, ctx in (("semi_text", "dispatch_macro_semi_term_text_expr", "semi_text"), ("stat_opts", "dispatch_macro_stat_opts_text_expr", "stat_opts"), ("arg_value", "dispatch_macro_call_arg_value", "arg_value"), ("str_call", "dispatch_macro_str_quoted_expr", "str_call")):
     LXH(f"lx_{nm}_classifier", COMMON + ["C06", "C13", "C14"], "quick", "<= 4 code points, first char any; pnl any u32, flags / mask symbolic", [f"Lexer::{fn}"], 900, stubs=TDC + XID, contexts=[ctx], mem=10)
@@ -243,6 +240,115 @@ for _n in ("lx_token_expect_symbol", "lx_token_expect_semi", "lx_token_ws_only",
                 _x["cfgs"].append("nodebug")
             if "C19" not in _x["props"]:
                 _x["props"].append("C19")
+
+
+# ---------------------------------------------------------------------------------------------
+# Quick tier under a wall-clock budget.  A quick check is stopped by its caller after 900 s, so the quick tier of
+# a property is a *budgeted selection* of (harness, configuration) queries: the queries for which the property is
+# PRIMARY always run; the other quick queries carrying the property's tag fill the remaining budget in an order
+# rotated by VERIF_SEED (different seeds exercise different secondary queries).  Nothing is skipped silently:
+# the evidence lists what was left out for the budget, and the thorough tier runs everything.
+
+# measured wall seconds per query (codegen + solve) on this 16-core box, a few jobs in parallel
+COST = {
+    "cur_": 32, "twin_cur_advance_by": 25, "buf_refines_shadow_mutators": 60, "buf_refines_shadow_observers": 45, "buf_refines_shadow_insert": 60,
+    "buf_add_token_nightly_full": 25, "buf_add_token_nightly_spare": 25, "buf_bulk_vs_accessors_n1": 30, "buf_bulk_vs_accessors_n2": 60,
+    "buf_bulk_vs_accessors_n3": 200, "buf_accessors_total_n1": 20, "buf_accessors_total_n2": 20, "buf_accessors_total_n3": 22, "twin_buf_bulk_vs_accessors": 25,
+    "buf_line_col_vs_text_k3": 22, "buf_line_col_vs_text_k5": 26, "buf_into_detached": 25, "buf_checkpoint_rollback": 40,
+    "lx_ws_k2": 40, "lx_cstyle_comment_k4": 60, "lx_macro_comment_k4": 39, "lx_single_quoted_k3": 103, "lx_single_quoted_esc_k5": 161,
+    "lx_unrestricted_k2": 146, "lx_stat_opts_string_k2": 134, "lx_arg_value_scan_k2": 259, "lx_finalize_": 280, "twin_lx_finalize": 60,
+    "lx_token_expect_symbol": 100, "lx_token_expect_semi": 80, "lx_token_ws_only": 127, "lx_token_make_checkpoint": 87, "lx_token_macro_def_name": 100,
+    "lx_preload_default": 126, "lx_preload_in_arg_value": 120, "lx_maybe_args_or_label": 78, "lx_label_sep": 65, "lx_numeric_literal": 50,
+    "lx_new_bom": 30, "lx_semi_text_arm_semi": 35, "lx_stat_opts_arm_assign": 35, "lx_eval_string_k2": 600, "lx_default_star": 78, "lx_default_symbol": 103,
+    "mac_mnemonic_case_and_shape": 27, "sep_predicate_spec": 20, "mac_is_macro_amp_spec": 25, "flags_roundtrip": 20, "num_int_spec_n3": 48, "num_hex_spec_n3": 300,
+    "lx_arg_or_value_first_": 36, "lx_arg_or_value_named_": 60, "lx_arg_or_value_named_percent": 98, "lx_arg_value_classifier": 176, "lx_char_format_k5": 186,
+    "lx_default_classifier": 90, "lx_double_quoted_literal_direct": 43, "lx_eval_dispatch_ops": 104, "lx_eval_percent_op": 143, "lx_identifier_k4": 98,
+    "lx_macro_call_k3": 99, "lx_macro_def_args": 59, "lx_macro_do_arms": 146, "lx_macro_identifier_k4": 100, "lx_macro_local_global_arms": 36,
+    "lx_maybe_arg_assign": 55, "lx_maybe_tail_arg": 21, "lx_name_expr_arms": 69, "lx_semi_text_classifier": 172, "lx_stat_opts_classifier": 168,
+    "lx_str_call_classifier": 182, "lx_str_expr_start": 29, "lx_symbols_table": 93, "lx_unterminated_str_direct": 39,
+}
+
+
+def cost(h):
+    best = None
+    for k, v in COST.items():
+        if h["name"] == k or (k.endswith("_") and h["name"].startswith(k)):
+            if best is None or len(k) > best[0]:
+                best = (len(k), v)
+    return best[1] if best else 120
+
+
+# properties for which a quick harness is primary (always selected); prefix match on the harness name
+PRIMARY = [
+    ("cur_", ["C03"]), ("cur_advance_by", ["C03", "C19"]), ("twin_cur", ["C03", "C19"]),
+    ("buf_refines_shadow_mutators", ["C02", "C07"]), ("buf_refines_shadow_observers", ["C02", "C15"]), ("buf_refines_shadow_insert", ["C02", "C18"]),
+    ("buf_add_token_nightly", ["C19", "C02"]), ("buf_bulk_vs_accessors", ["C05", "C17"]), ("twin_buf", ["C05"]), ("buf_accessors_total", ["C02", "C03", "C04"]),
+    ("buf_line_col_vs_text", ["C04", "C17", "C02", "C03"]), ("buf_into_detached", ["C02", "C03", "C04"]), ("buf_checkpoint_rollback", ["C02", "C04", "C07"]),
+    ("lx_ws_k2", ["C04", "C06", "C03"]), ("lx_cstyle_comment_k4", ["C04", "C06", "C03", "C11"]), ("lx_macro_comment_k4", ["C04", "C06"]),
+    ("lx_single_quoted_k3", ["C07", "C06", "C16", "C04", "C11"]), ("lx_single_quoted_esc_k5", ["C07", "C16"]),
+    ("lx_unrestricted_k2", ["C13", "C06"]), ("lx_stat_opts_string_k2", ["C13", "C14"]), ("lx_arg_value_scan_k2", ["C13", "C04"]),
+    ("lx_finalize_", ["C10", "C14"]), ("lx_finalize_nested_str_p0", ["C10", "C14", "C01", "C09"]), ("lx_finalize_if_paren_p1", ["C10", "C14", "C02", "C09"]),
+    ("lx_finalize_scan_p1", ["C10", "C14", "C01", "C02"]), ("twin_lx_finalize", ["C10", "C14"]),
+    ("lx_token_expect_symbol", ["C14", "C09", "C06"]), ("lx_token_expect_semi", ["C14", "C09"]), ("lx_token_ws_only", ["C13", "C14", "C01"]),
+    ("lx_token_make_checkpoint", ["C01", "C09", "C07"]), ("lx_token_macro_def_name", ["C06", "C01"]),
+    ("lx_preload_default", ["C14", "C10", "C15", "C18", "C11"]), ("lx_preload_in_arg_value", ["C18", "C14"]),
+    ("lx_maybe_args_or_label", ["C01", "C09", "C10", "C15", "C02", "C04", "C18", "C13"]), ("lx_label_sep", ["C18", "C05", "C10"]),
+    ("lx_numeric_literal", ["C08", "C16", "C11"]), ("lx_new_bom", ["C17", "C02", "C15", "C03"]),
+    ("lx_semi_text_arm_semi", ["C14"]), ("lx_stat_opts_arm_assign", ["C06"]),
+    ("lx_default_star", ["C11", "C01"]), ("lx_default_symbol", ["C11"]),
+    ("lx_eval_dispatch_ops", ["C13", "C16", "C06", "C01"]), ("lx_eval_percent_op", ["C13", "C06"]),
+    ("lx_arg_or_value_", ["C13", "C01", "C09"]), ("lx_maybe_arg_assign", ["C13", "C02", "C04", "C01"]), ("lx_maybe_tail_arg", ["C13", "C14"]),
+    ("lx_macro_def_args", ["C13", "C14", "C09"]), ("lx_unterminated_str_direct", ["C10", "C07", "C09"]), ("lx_double_quoted_literal_direct", ["C07", "C10", "C16", "C11", "C06"]),
+    ("lx_str_expr_start", ["C10"]), ("lx_identifier_k4", ["C16", "C06", "C11"]), ("lx_macro_identifier_k4", ["C16", "C06", "C03"]),
+    ("lx_macro_call_k3", ["C03", "C06", "C13", "C09", "C01"]), ("lx_symbols_table", ["C11", "C06"]), ("lx_char_format_k5", ["C11", "C03", "C06"]),
+    ("lx_default_classifier", ["C11", "C01", "C08", "C10"]), ("lx_semi_text_classifier", ["C04", "C01", "C13", "C14"]), ("lx_stat_opts_classifier", ["C04", "C06", "C01", "C14"]),
+    ("lx_arg_value_classifier", ["C13", "C04", "C01"]), ("lx_str_call_classifier", ["C13", "C04", "C01"]),
+    ("lx_macro_do_arms", ["C14", "C01", "C15", "C09"]), ("lx_macro_local_global_arms", ["C14", "C01"]), ("lx_name_expr_arms", ["C14", "C09", "C01"]),
+    ("mac_", None), ("sep_", None), ("flags_", None), ("num_", None),
+]
+
+
+def primary_props(h, cfg):
+    """Properties for which the query (h, cfg) always runs in the quick tier."""
+    best = None
+    for k, v in PRIMARY:
+        if h["name"].startswith(k) and (best is None or len(k) > best[0]):
+            best = (len(k), v)
+    props = list(h["props"]) if best is None or best[1] is None else [p for p in best[1] if p in h["props"]]
+    if cfg == "nodebug" and not h["name"].startswith(("cur_", "twin_cur")):
+        # the release-like configuration of a lexer harness is the subject of C19 only
+        props = [p for p in props if p == "C19"] or (["C19"] if "C19" in h["props"] else [])
+    if cfg == "macro_sep" and "C18" in h["props"] and len(h["cfgs"]) > 1:
+        props = [p for p in props if p == "C18"] or ["C18"]
+    return props
+
+
+QUICK_BUDGET_S = 5000  # cpu-seconds of queries per property (about 6.5 min of wall time at 13 jobs)
+SECONDARY_MAX_S = 200  # a query that fills the budget must be cheap
+
+
+def quick_selection(pid, seed=0, budget=None):
+    """[(h, cfg)] selected for the quick tier of `pid`, and the list left out for the budget."""
+    import os
+    budget = budget if budget is not None else int(os.environ.get("VERIF_QUICK_BUDGET", QUICK_BUDGET_S))
+    prim, sec = [], []
+    for h in HARNESSES:
+        if pid not in h["props"] or h["tier"] != "quick":
+            continue
+        for cfg in h["cfgs"]:
+            (prim if pid in primary_props(h, cfg) else sec).append((h, cfg))
+    total = sum(cost(h) for h, _ in prim)
+    if sec:
+        k = seed % len(sec)
+        sec = sec[k:] + sec[:k]
+    chosen, left = list(prim), []
+    for h, cfg in sec:
+        if total + cost(h) <= budget and cost(h) <= SECONDARY_MAX_S:
+            chosen.append((h, cfg))
+            total += cost(h)
+        else:
+            left.append((h, cfg))
+    return chosen, left, total
 
 
 def by_property(pid, tier):
